@@ -131,12 +131,14 @@ FEATURE_ARGS = {
     "prohibit-unsafe": "--features prohibit-unsafe",
     "both": "--features index-positions,prohibit-unsafe",
     "utf16": "--features utf16",
+    "pattern": "--features pattern",
 }
 def build_harness(feat="default", profile="release"):
     shutil.copy(os.path.join(REPO, "Cargo.lock"), os.path.join(V, "harness", "Cargo.lock"))
     env = dict(ENV, RUSTFLAGS="--cfg regress_verif")
-    rc, out = sh("timeout 900 cargo build --%s --offline %s --target-dir %s/target-%s" %
-                 (profile, FEATURE_ARGS[feat], BUILD, feat), 930, cwd=os.path.join(V, "harness"), env=env)
+    cargo = "cargo +nightly" if feat == "pattern" else "cargo"
+    rc, out = sh("timeout 900 %s build --%s --offline %s --target-dir %s/target-%s" %
+                 (cargo, profile, FEATURE_ARGS[feat], BUILD, feat), 930, cwd=os.path.join(V, "harness"), env=env)
     return rc, out
 
 def build_driver():
@@ -152,7 +154,7 @@ def build_driver():
     rc, out = sh("coqc -Q ../../theories RV ../../theories/Extract.v", 600, cwd=d)
     if rc != 0: return rc, out
     for f in glob.glob(os.path.join(V, "driver", "*.ml")): shutil.copy(f, d)
-    rc, out = sh("ocamlfind ocamlopt -package unix -linkpkg -O2 -w -a model.mli model.ml conv.ml apidrv.ml specdrv.ml cpsdrv.ml driver.ml -o driver", 600, cwd=d)
+    rc, out = sh("ocamlfind ocamlopt -package unix -linkpkg -O2 -w -a model.mli model.ml conv.ml apidrv.ml specdrv.ml cpsdrv.ml srchdrv.ml driver.ml -o driver", 600, cwd=d)
     if rc == 0: open(stamp, "w").write(hsh)
     return rc, out
 
